@@ -632,6 +632,13 @@ func (nd *Node) AfterActionX(sigPoolRan bool, detect bool) {
 		}
 		nd.emit("ps", strings.Join(s, " "))
 	}
+	if nd.Core != nil {
+		s := []string{}
+		for _, tx := range nd.Core.TransactionPool() {
+			s = append(s, fmt.Sprint(TxSerialOf(tx)))
+		}
+		nd.emit("pl", strings.Join(s, " "))
+	}
 	fmt.Fprintf(w.Out, "K %d\n", nd.ID)
 }
 
